@@ -23,6 +23,8 @@ package main
 
 import (
 	crand "crypto/rand"
+	"crypto/sha256"
+	"encoding/binary"
 	"encoding/hex"
 	"encoding/json"
 	"fmt"
@@ -55,6 +57,31 @@ type countingReader struct {
 func (r *countingReader) Read(p []byte) (int, error) {
 	for i := range p {
 		p[i] = r.c
+	}
+	r.n += int64(len(p))
+	return len(p), nil
+}
+
+// counterReader is the second harness-owned secure source: a stream without repetition (block i
+// is SHA-256 of the counter i), counting what is drawn. Any code that keeps reusing bytes it has
+// already consumed yields repeated secrets under it.
+type counterReader struct {
+	ctr uint64
+	buf []byte
+	n   int64
+}
+
+func (r *counterReader) Read(p []byte) (int, error) {
+	for i := range p {
+		if len(r.buf) == 0 {
+			var c [8]byte
+			binary.BigEndian.PutUint64(c[:], r.ctr)
+			h := sha256.Sum256(c[:])
+			r.buf = h[:]
+			r.ctr++
+		}
+		p[i] = r.buf[0]
+		r.buf = r.buf[1:]
 	}
 	r.n += int64(len(p))
 	return len(p), nil
@@ -196,6 +223,58 @@ func entries() []entry {
 	}
 }
 
+// repeatOf: calls per process in the counter-stream family (keystore entry points write files).
+func repeatOf(e entry, thorough bool) int {
+	k := 256
+	if strings.HasPrefix(e.Name, "account.NewClient") || strings.HasPrefix(e.Name, "account.Client") || e.Name == "account.Create" {
+		k = 96
+	}
+	if thorough {
+		k *= 4
+	}
+	return k
+}
+
+// judgeMulti: secrets produced by k calls in one process under a repetition-free secure stream
+// must be pairwise distinct, and the secure bytes drawn must grow with the number of calls.
+func judgeMulti(r *evid.Run, e entry, o multiOut) (distinct int) {
+	first := map[string]int{}
+	rep := -1
+	for i, s := range o.Secrets {
+		if j, ok := first[s]; ok {
+			if rep < 0 {
+				rep = i
+				r.Violate("C38|repeated-secret|"+e.Name,
+					fmt.Sprintf("%s: %s repeats within one process although the secure stream never repeats (reuse of already consumed random bytes)", e.Name, e.What),
+					map[string]interface{}{"entry": e.Name, "kind": "multi", "calls": o.Calls, "first_call": j, "repeated_at_call": i, "secret": s})
+			}
+		} else {
+			first[s] = i
+		}
+	}
+	if need := int64(e.SecretBytes) * int64(len(o.Secrets)); o.Drawn < need {
+		r.Violate("C38|secure-bytes-sublinear|"+e.Name,
+			fmt.Sprintf("%s: %d calls create %d secret bytes each but fewer bytes were drawn from crypto/rand.Reader in total", e.Name, len(o.Secrets), e.SecretBytes),
+			map[string]interface{}{"entry": e.Name, "kind": "multi", "calls": o.Calls, "drawn": o.Drawn, "needed": need})
+	}
+	return len(first)
+}
+
+func runMulti(idx, k int, scr string) multiOut {
+	rs := par.Procs([]string{fmt.Sprintf("m|%d|%d", idx, k)}, scr, par.Opts{Timeout: 5 * time.Minute, Parallel: 1})
+	var o multiOut
+	if rs[0].Died || rs[0].Out == nil {
+		evid.Fatalf("multi-call worker for entry %d died: %s", idx, rs[0].Stderr)
+	}
+	if err := json.Unmarshal(rs[0].Out, &o); err != nil {
+		evid.Fatalf("worker output: %v", err)
+	}
+	if o.Err != "" {
+		evid.Fatalf("entry point %s failed under the counter stream: %s", o.Entry, o.Err)
+	}
+	return o
+}
+
 func pad32(b []byte) []byte {
 	if len(b) >= 32 {
 		return b
@@ -215,9 +294,52 @@ type runOut struct {
 	Err    string `json:"err,omitempty"`
 }
 
+type multiOut struct {
+	Entry   string   `json:"entry"`
+	Calls   int      `json:"calls"`
+	Secrets []string `json:"secrets_hex"`
+	Drawn   int64    `json:"secure_bytes_drawn"`
+	Err     string   `json:"err,omitempty"`
+}
+
+// multiWorker calls one entry point k times in this process under the counter stream.
+func multiWorker(idx, k int) {
+	scr := evid.Scratch("c38w")
+	defer os.RemoveAll(scr)
+	hx.QuietLogs(scr)
+	e := entries()[idx]
+	cr := &counterReader{}
+	crand.Reader = cr
+	mrand.Seed(1)
+	null, _ := os.OpenFile(os.DevNull, os.O_WRONLY, 0)
+	saved := os.Stdout
+	os.Stdout = null
+	out := multiOut{Entry: e.Name, Calls: k}
+	for i := 0; i < k; i++ {
+		d := filepath.Join(scr, fmt.Sprintf("call%d", i))
+		os.MkdirAll(d, 0o755)
+		secret, err := e.Run(d)
+		os.RemoveAll(d)
+		if err != nil {
+			out.Err = fmt.Sprintf("call %d: %v", i, err)
+			break
+		}
+		out.Secrets = append(out.Secrets, hex.EncodeToString(secret))
+	}
+	os.Stdout = saved
+	out.Drawn = cr.n
+	par.Emit(out)
+}
+
 func workerMain(job string) {
-	// job = entryIndex|c|s|rep
+	// job = entryIndex|c|s|rep   or   m|entryIndex|k
 	f := strings.Split(job, "|")
+	if f[0] == "m" {
+		idx, _ := strconv.Atoi(f[1])
+		k, _ := strconv.Atoi(f[2])
+		multiWorker(idx, k)
+		return
+	}
 	idx, _ := strconv.Atoi(f[0])
 	c, _ := strconv.Atoi(f[1])
 	s, _ := strconv.ParseInt(f[2], 10, 64)
@@ -383,10 +505,18 @@ func main() {
 	if r.Replay != "" {
 		var a struct {
 			Entry string `json:"entry"`
+			Kind  string `json:"kind"`
+			Calls int    `json:"calls"`
 		}
 		sig := r.LoadReplay(&a)
 		fmt.Printf("replaying %s: all %d environments of %s\n", sig, len(cs)*len(ss)*reps, a.Entry)
 		for i, e := range es {
+			if e.Name == a.Entry && a.Kind == "multi" {
+				o := runMulti(i, a.Calls, scr)
+				d := judgeMulti(r, e, o)
+				fmt.Printf("  %d calls under the counter stream: %d distinct secrets, %d secure bytes drawn\n", len(o.Secrets), d, o.Drawn)
+				continue
+			}
 			if e.Name == a.Entry {
 				outs := runEntry(i, scr)
 				for _, o := range outs {
@@ -400,12 +530,21 @@ func main() {
 	}
 
 	all := make([][]runOut, len(es))
-	par.Go(len(es), func(i int) {
-		d := filepath.Join(scr, fmt.Sprintf("e%d", i))
-		os.MkdirAll(d, 0o755)
-		all[i] = runEntry(i, d)
+	multi := make([]multiOut, len(es))
+	par.Go(2*len(es), func(j int) {
+		i := j / 2
+		if j%2 == 0 {
+			d := filepath.Join(scr, fmt.Sprintf("e%d", i))
+			os.MkdirAll(d, 0o755)
+			all[i] = runEntry(i, d)
+		} else {
+			d := filepath.Join(scr, fmt.Sprintf("m%d", i))
+			os.MkdirAll(d, 0o755)
+			multi[i] = runMulti(i, repeatOf(es[i], r.Thorough()), d)
+		}
 	})
 	st := &stats{}
+	multiCalls, multiPairs := 0, 0
 	var samples []interface{}
 	summary := map[string]interface{}{}
 	for i, e := range es {
@@ -418,8 +557,12 @@ func main() {
 				minDrawn = o.Drawn
 			}
 		}
+		dm := judgeMulti(r, e, multi[i])
+		multiCalls += len(multi[i].Secrets)
+		multiPairs += len(multi[i].Secrets) * (len(multi[i].Secrets) - 1) / 2
 		summary[e.Name] = map[string]interface{}{"secret": e.What, "secret_bytes": e.SecretBytes, "runs": len(all[i]),
-			"distinct_secrets": len(distinct), "expected_distinct_secrets": len(cs), "min_secure_bytes_drawn": minDrawn}
+			"distinct_secrets": len(distinct), "expected_distinct_secrets": len(cs), "min_secure_bytes_drawn": minDrawn,
+			"counter_stream_calls": len(multi[i].Secrets), "counter_stream_distinct_secrets": dm, "counter_stream_bytes_drawn": multi[i].Drawn}
 		if len(all[i]) > 0 {
 			samples = append(samples, all[i][0])
 		}
@@ -432,15 +575,17 @@ func main() {
 		"the clock is varied by running twice, not shifted")
 	os.RemoveAll(scr)
 	r.Finish(evid.Coverage{
-		"evaluations":         st.runs,
-		"distinct_nontrivial": st.pairs,
-		"rule": fmt.Sprintf("%d entry points x secure-stream byte %v x math/rand seed %v x %d repetitions, one worker subprocess per run; every pair of runs of one entry point is compared (equal stream => equal secret; different stream => different secret) and secure bytes drawn >= secret bytes; non-trivial = pairs of distinct runs in which both produced their secret", len(es), cs, ss, reps),
+		"evaluations":         st.runs + multiCalls,
+		"distinct_nontrivial": st.pairs + multiPairs,
+		"rule": fmt.Sprintf("%d entry points x secure-stream byte %v x math/rand seed %v x %d repetitions, one worker subprocess per run; every pair of runs of one entry point is compared (equal stream => equal secret; different stream => different secret) and secure bytes drawn >= secret bytes. Second family: every entry point called k times (256; keystore entry points 96; thorough x4) in ONE process with crypto/rand.Reader := repetition-free counter stream (SHA-256 of a block counter): the k secrets must be pairwise distinct and secure bytes drawn >= k x secret bytes. non-trivial = pairs of distinct runs/calls in which both produced their secret", len(es), cs, ss, reps),
 		"exhaustive":              true,
 		"entry_points":            len(es),
 		"runs":                    st.runs,
 		"pairs_compared":          st.pairs,
 		"pairs_same_stream":       st.pairsSameC,
 		"pairs_different_stream":  st.pairsDiffC,
+		"counter_stream_calls":    multiCalls,
+		"counter_stream_pairs":    multiPairs,
 		"per_entry":               summary,
 		"math_rand_importers":     imps,
 		"samples":                 samples,
